@@ -149,7 +149,36 @@ def _invert_ifs(src):
     return ast.unparse(tree) + "\n"
 
 
+def _all_variants():
+    from . import variants
+    return (("shifted-lines", _shift_lines), ("re-emitted-by-ast.unparse", _reemit), ("locals-renamed", _rename_locals),
+            ("if-else-arms-swapped", _invert_ifs)) + variants.EXTRA + variants.EXTRA2
+
+
+def _seed_job(a):
+    pid, sid = a
+    ov = _overlay_from_patch(os.path.join(VERIF, "seeded", sid, "patch.diff"))
+    if not ov:
+        return sid, None, []
+    v, keys, _ = _verdict(pid, ov)
+    return sid, v, keys
+
+
+def _variant_job(a):
+    pid, rel, name = a
+    fn = dict(_all_variants())[name]
+    src = open(os.path.join(REPO, rel)).read()
+    try:
+        new = fn(src)
+        compile(new, rel, "exec")
+    except Exception:
+        return rel, name, None, [], []
+    v, keys, c2 = _verdict(pid, {rel: new})
+    return rel, name, v, keys, sorted(o["key"] for o in c2.obligations)
+
+
 def run_selftest(pid, chk, seed=0):
+    from concurrent.futures import ProcessPoolExecutor
     res = {"mutants": 0, "killed": 0, "refused": 0, "missed": [], "not_applicable": [], "variants": 0, "silent": 0, "alarms": [], "detail": []}
     matrix = {}
     mp = os.path.join(VERIF, "seeded", "MATRIX.json")
@@ -157,13 +186,18 @@ def run_selftest(pid, chk, seed=0):
         matrix = json.load(open(mp))
     sids = sorted(os.path.basename(os.path.dirname(p)) for p in glob.glob(os.path.join(VERIF, "seeded", "*", "patch.diff")))
     mine = [s for s in sids if s.split("-")[0] == pid or pid in matrix.get(s, {}).get("violation", [])]
-    for sid in mine:
-        ov = _overlay_from_patch(os.path.join(VERIF, "seeded", sid, "patch.diff"))
-        if not ov:
+    base_v, base_keys, base_chk = _verdict(pid, {})
+    base_ob = sorted(o["key"] for o in base_chk.obligations)
+    vjobs = [(pid, rel, name) for rel in _anchored_files(pid) if os.path.exists(os.path.join(REPO, rel)) for name, _ in _all_variants()]
+    workers = max(1, min(16, os.cpu_count() or 1))
+    with ProcessPoolExecutor(workers) as ex:
+        seed_results = list(ex.map(_seed_job, [(pid, s) for s in mine]))
+        variant_results = list(ex.map(_variant_job, vjobs))
+    for sid, v, keys in seed_results:
+        if v is None:
             res["not_applicable"].append(sid + " (patch no longer applies to this tree)")
             continue
         res["mutants"] += 1
-        v, keys, _ = _verdict(pid, ov)
         own = sid.split("-")[0] == pid
         if v == "violation":
             res["killed"] += 1
@@ -178,36 +212,26 @@ def run_selftest(pid, chk, seed=0):
                 continue
             res["missed"].append(sid)
         res["detail"].append("%s: %s %s" % (sid, v, keys[:3]))
-    base_v, base_keys, base_chk = _verdict(pid, {})
-    base_ob = sorted(o["key"] for o in base_chk.obligations)
-    for rel in _anchored_files(pid):
-        path = os.path.join(REPO, rel)
-        if not os.path.exists(path):
+    structural = ("shifted-lines", "re-emitted-by-ast.unparse")
+    for rel, name, v, keys, obs in variant_results:
+        if v is None:
             continue
-        src = open(path).read()
-        from . import variants
-        for name, fn in (("shifted-lines", _shift_lines), ("re-emitted-by-ast.unparse", _reemit), ("locals-renamed", _rename_locals), ("if-else-arms-swapped", _invert_ifs)) + variants.EXTRA + variants.EXTRA2:
-            try:
-                new = fn(src)
-                compile(new, rel, "exec")
-            except Exception:
+        res["variants"] += 1
+        if name in structural:
+            same = v == base_v and keys == base_keys and obs == base_ob
+        elif name == "locals-renamed":
+            # instance keys may legitimately mention a local's name; what matters is the verdict
+            if v == "refused":
+                res.setdefault("refused_variants", []).append("%s of %s: %s" % (name, rel, keys[:1]))
+                res["variants"] -= 1
                 continue
-            res["variants"] += 1
-            v, keys, c2 = _verdict(pid, {rel: new})
-            same = v == base_v and keys == base_keys and sorted(o["key"] for o in c2.obligations) == base_ob
-            if name == "if-else-arms-swapped" or name in dict(variants.EXTRA + variants.EXTRA2):
-                same = v == base_v and (v != "violation" or keys == base_keys)
-            if name == "locals-renamed":
-                # instance keys may legitimately mention a local's name; what matters is the verdict
-                same = v == base_v and len(c2.obligations) == len(base_ob) if v != "refused" else False
-                if v == "refused":
-                    res.setdefault("refused_variants", []).append("%s of %s: %s" % (name, rel, keys[:1]))
-                    res["variants"] -= 1
-                    continue
-            if same:
-                res["silent"] += 1
-            else:
-                res["alarms"].append("%s of %s: %s %s (unchanged tree: %s)" % (name, rel, v, keys[:3], base_v))
+            same = v == base_v and len(obs) == len(base_ob)
+        else:
+            same = v == base_v and (v != "violation" or keys == base_keys)
+        if same:
+            res["silent"] += 1
+        else:
+            res["alarms"].append("%s of %s: %s %s (unchanged tree: %s)" % (name, rel, v, keys[:3], base_v))
     chk.extra["selftest"] = res
     if not chk.quiet:
         print("%s self-test: %d/%d seeded changes reported (%d refused, missed: %s); %d/%d behaviour-preserving variants silent%s" % (
